@@ -140,6 +140,26 @@ def synthetic_fens(rng, n):
     return out
 
 
+def attacker_geometry(rng, T):
+    """king x one enemy piece, systematically: every king square x every attacker square for pawns of both colours (the asymmetric,
+    edge-sensitive kind), and for the other kinds all of them in the thorough tier / a sample otherwise.  The other king stands
+    away from both.  All are legal positions by construction (TLC's filter still sees them)."""
+    out = []
+    for kcol in "wb":
+        for ksq in range(64):
+            for kind in "pqrbn":
+                for asq in range(64):
+                    if asq == ksq or (kind == "p" and (asq < 8 or asq >= 56)):
+                        continue
+                    if kind != "p" and not T and rng.random() > 0.06:
+                        continue
+                    far = [q for q in range(64) if q not in (ksq, asq) and max(abs(q % 8 - ksq % 8), abs(q // 8 - ksq // 8)) >= 2]
+                    board = {ksq: "K" if kcol == "w" else "k", asq: kind if kcol == "w" else kind.upper(),
+                             rng.choice(far): "k" if kcol == "w" else "K"}
+                    out.append(board_to_fen(board, kcol))
+    return out
+
+
 def cases_for(prop, tier, roots, rng, wd=None):
     """the case mix per property; every case is {id, fen, ops, prop, family}"""
     T = tier == "thorough"
@@ -250,6 +270,11 @@ def cases_for(prop, tier, roots, rng, wd=None):
             add(r["fen"], [{"op": "walk", "plies": 150 if T else 60, "seed": rng.randrange(1 << 30)}], "random legal game")
         for f in extra:
             add(f, [{"op": "dfs", "depth": 1}], "move-less positions that still have pseudo-legal moves, and e.p. discovered-check geometry (TLC-filtered candidates)")
+        geo = attacker_geometry(rng, T)
+        gcls = posfilter(wd, geo, "geo") if wd else {}
+        for f in geo:
+            if not wd or gcls[f]["wf"]:
+                add(f, [{"op": "chk"}], "king and one enemy piece: every square pair (check queries only)")
     elif prop == "C06":
         for r in roots:
             add(r["fen"], [{"op": "dfs", "depth": 1}], "delta of every emitted move")
@@ -579,7 +604,7 @@ def run_board_cases(prop, cases, wd, keys, nshards=None):
 
 EVAL_EVENTS = {
     "C01": ("gen", "perft"), "C02": ("make", "make_uci", "bare_done"), "C03": ("unmake", "gen", "perft", "san_all"),
-    "C05": ("gen", "make"), "C06": ("gen", "make", "unmake", "load"),
+    "C05": ("gen", "make", "chk"), "C06": ("gen", "make", "unmake", "load"),
     "C13": ("find_uci", "make_uci", "make_all_uci", "uci_to_pgn", "pgn_to_bb", "uci_batch"),
     "C14": ("san_all", "pgn_to_bb", "uci_to_pgn"),
 }
